@@ -71,9 +71,18 @@ def strip_comments(src):
     return "".join(out)
 
 
+def props_modules(prop):
+    """Props/<Cxx>.lean and, when it exists, Props/<Cxx>Gen.lean (equivalence theorems between the definitions
+    translated from the Go source, Gen/<Cxx>.lean, and the model; nothing imports it)"""
+    mods = ["OnetVerif.Props.%s" % prop]
+    if os.path.exists(os.path.join(LEAN, "OnetVerif", "Props", prop + "Gen.lean")):
+        mods.append("OnetVerif.Props.%sGen" % prop)
+    return mods
+
+
 def lean_module_closure(prop):
-    """Lean files (under lean/OnetVerif) the property's Props module depends on."""
-    seen, todo = set(), ["OnetVerif.Props.%s" % prop]
+    """Lean files (under lean/OnetVerif) the property's Props module(s) depend on."""
+    seen, todo = set(), props_modules(prop)
     while todo:
         m = todo.pop()
         if m in seen or not m.startswith("OnetVerif."):
@@ -135,12 +144,13 @@ def proof_obligations(prop, tier, log):
     """returns (obligations:list[str], discharged:list[str], problems:list[str], checker_cmd)"""
     names = load_meta(prop).get("obligations", [])
     problems = []
-    checker = "cd lean && lake build OnetVerif.Props.%s onetmodel && lake env lean <audit: #print axioms of every obligation>" % prop
+    pmods = props_modules(prop)
+    checker = "cd lean && lake build %s onetmodel && lake env lean <audit: #print axioms of every obligation>" % " ".join(pmods)
     if tier == "thorough":
-        checker += " && lake env leanchecker OnetVerif.Props.%s" % prop
+        checker += " && lake env leanchecker %s" % " ".join(pmods)
     if not names:
         return [], [], ["no obligations registered for " + prop], checker
-    rc, out = sh(["lake", "build", "OnetVerif.Props.%s" % prop, "onetmodel"], cwd=LEAN)
+    rc, out = sh(["lake", "build"] + pmods + ["onetmodel"], cwd=LEAN)
     log.append(out[-4000:])
     if rc != 0:
         # find which theorem failed, if the error names a line
@@ -153,12 +163,13 @@ def proof_obligations(prop, tier, log):
         mm = FORBIDDEN.search(src)
         if mm:
             problems.append("forbidden token %r in %s" % (mm.group(0).strip(), path))
-    # the theorems must be declared in Props/<prop>.lean itself
-    psrc = strip_comments(open(os.path.join(LEAN, "OnetVerif", "Props", prop + ".lean")).read())
+    # the theorems must be declared in Props/<prop>.lean (or Props/<prop>Gen.lean) itself
+    psrc = "\n".join(strip_comments(open(os.path.join(LEAN, m.replace(".", "/") + ".lean")).read()) for m in pmods)
     os.makedirs(BUILD, exist_ok=True)
     audit = os.path.join(BUILD, "Audit_%s.lean" % prop)
     with open(audit, "w") as f:
-        f.write("import OnetVerif.Props.%s\n" % prop)
+        for m in pmods:
+            f.write("import %s\n" % m)
         for n in names:
             f.write("#print axioms %s\n" % n)
     rc, out = sh(["lake", "env", "lean", audit], cwd=LEAN)
@@ -168,7 +179,7 @@ def proof_obligations(prop, tier, log):
     for n in names:
         short = n.split(".")[-1]
         if not re.search(r"\b(theorem|lemma)\s+(%s|%s)\b" % (re.escape(short), re.escape(n)), psrc):
-            problems.append("theorem %s is not stated in Props/%s.lean" % (n, prop))
+            problems.append("theorem %s is not stated in Props/%s.lean or Props/%sGen.lean" % (n, prop, prop))
             continue
         m = re.search(r"'%s' depends on axioms: \[([^\]]*)\]" % re.escape(n), flat)
         if m:
@@ -183,11 +194,12 @@ def proof_obligations(prop, tier, log):
         else:
             problems.append("theorem %s not found by the audit (%s)" % (n, out[-400:]))
     if tier == "thorough" and not problems:
-        rc, out = sh(["lake", "env", "leanchecker", "OnetVerif.Props.%s" % prop], cwd=LEAN)
-        log.append(out[-2000:])
-        if rc != 0:
-            problems.append("leanchecker rejected OnetVerif.Props.%s: %s" % (prop, out[-800:]))
-            discharged = []
+        for m in pmods:
+            rc, out = sh(["lake", "env", "leanchecker", m], cwd=LEAN)
+            log.append(out[-2000:])
+            if rc != 0:
+                problems.append("leanchecker rejected %s: %s" % (m, out[-800:]))
+                discharged = []
     return names, discharged, problems, checker
 
 
